@@ -69,10 +69,49 @@ package keys
 //@   ensures str(result) == ethPubOf(pubkey)
 
 //@ func (PublicKeySECP256K1).VerifyBytes
+//@   safety C18
 //@   modifies nothing
 //@   ensures result == libVerifySecp(k.key, str(msg), str(sig))          // C04.real-verification
 
 //@ func (PublicKeyETHSECP).VerifyBytes
+//@   safety C18
 //@   modifies nothing
 //@   ensures len(sig) != 65 ==> result == libVerifyEth(ethPubOf(k.key), str(msg), str(sig))                                   // C04.real-verification
 //@   ensures len(sig) == 65 ==> result == libVerifyEth(ethPubOf(k.key), str(msg), @str_sub(str(sig), 0, 64))                   // C04.real-verification
+
+// ---------------------------------------------------------------- ed25519 with the pre-hash feature (C18: malformed signature bytes)
+//
+// A signature longer than 64 bytes that starts with a known hash tag is verified over the hash of the message. The
+// hash object handed to VerifyPreHashMsg must exist: PreHashRequired answers true only together with a non-nil hash.
+//@ assume extern func crypto/sha256.New224
+//@   modifies nothing
+//@   ensures !isnil(result)
+//@ assume extern func crypto/sha256.New
+//@   modifies nothing
+//@   ensures !isnil(result)
+//@ assume extern func crypto/sha512.New384
+//@   modifies nothing
+//@   ensures !isnil(result)
+//@ assume extern func crypto/sha512.New
+//@   modifies nothing
+//@   ensures !isnil(result)
+
+//@ func getSigPrefix
+//@   safety C18
+//@   modifies nothing
+//@   ensures len(result) <= len(sig)
+
+//@ func PreHashRequired
+//@   safety C18
+//@   modifies nothing
+//@   ensures result0 ==> !isnil(result1) && len(sig) > 64                                              // C18.prehash-hash
+
+//@ func (PublicKeyED25519).VerifyPreHashMsg
+//@   safety C18
+//@   requires !isnil(hash) && len(sig) >= 6                                                            // C18.prehash-hash
+//@   dyncalls pure
+
+//@ func (PublicKeyED25519).VerifyBytes
+//@   safety C18
+//@   dyncalls pure
+//@   ensures len(sig) <= 64 ==> result == libVerifyEd(k.key, str(msg), str(sig))                          // C04.real-verification
